@@ -133,6 +133,10 @@ def run(pid, tier):
             # C06 quantifies over delays of the run's own bookkeeping and over children that outlive a failure
             variant = (i % 3) if pid == "C06" else (1 if i % 7 == 3 else 0)
             scenarios.append(runlib.scenario_from_behaviour(b, i, rng, variant))
+        if pid == "C06":
+            # every member of a group has exited (one of them non-zero) before the run joins any of them
+            for k, (n, ff) in enumerate([(1, True), (2, True), (3, False), (1, False)] + ([(5, True), (8, False), (2, False), (4, True)] if tier == "thorough" else [])):
+                scenarios.append(runlib.late_success_scenario(n, chk.seed * 31 + k, ff))
         nr = 25 if tier == "quick" else 500
         for i in range(nr):
             fp = {"C06": 0.8, "C04": 0.15, "C05": 0.4}[pid]
